@@ -169,7 +169,32 @@ func rulesC05(c *Ctx) {
 				}
 			}
 		}
-		c.Check(flag != nil, "Notify:flag-with-increment", incSite.Lit, incStmt, "the increment is always accompanied by setting the local flag")
+		// the other spelling of the same pairing: the closure leaves without incrementing only with a captured error set,
+		// the caller returns at once on that error, and otherwise registers an unconditional deferred decrement before
+		// anything else can leave the function
+		pairedByReturn, whyNot := false, ""
+		if flag == nil {
+			pairedByReturn, whyNot = c.pairedByEarlyReturn(nf, incSite, incStmt, outN)
+		}
+		c.Check(flag != nil || pairedByReturn, "Notify:flag-with-increment", incSite.Lit, incStmt, "the increment is tied to the decrement: it sets a local flag that the deferred decrement tests, or the function returns at once when the closure did not increment and defers the decrement otherwise %s", whyNot)
+		if pairedByReturn {
+			nInc, nDec := 0, 0
+			for _, f := range c.funcsWithLits(pJ) {
+				for _, w := range f.FieldWrites(f.Body, outN, false) {
+					if id, ok := w.(*ast.IncDecStmt); ok {
+						if id.Tok == token.INC {
+							nInc++
+						} else {
+							nDec++
+						}
+						c.Check(f.Root().Obj == nf.Obj, "outgoingNotifications-writer:"+f.Name(), f, w, "outgoingNotifications is only written by Notify")
+					} else {
+						c.Fail("outgoingNotifications-writer:"+f.Name(), f, w, "unexpected write")
+					}
+				}
+			}
+			c.Check(nInc == 1 && nDec == 1, "outgoingNotifications:one-inc-one-dec", nf, nil, "one increment and one decrement site (%d/%d)", nInc, nDec)
+		}
 		if flag != nil {
 			ws := nf.writesToVar(nf.Body, flag, true)
 			okW := len(ws) == 2
@@ -206,7 +231,11 @@ func rulesC05(c *Ctx) {
 				}
 			}
 		}
+		if pairedByReturn {
+			goto reading
+		}
 		c.Check(okDef, "Notify:deferred-decrement", nf, nil, "a deferred closure registered before the increment decrements outgoingNotifications exactly when the flag was set (all exits, including panics in the writer)")
+		{
 		nInc, nDec := 0, 0
 		for _, f := range c.funcsWithLits(pJ) {
 			for _, w := range f.FieldWrites(f.Body, outN, false) {
@@ -223,6 +252,8 @@ func rulesC05(c *Ctx) {
 			}
 		}
 		c.Check(nInc == 1 && nDec == 1, "outgoingNotifications:one-inc-one-dec", nf, nil, "one increment and one decrement site (%d/%d)", nInc, nDec)
+		}
+	reading:
 		// reading
 		riObj := c.FnObj(pJ, "Connection", "readIncoming")
 		for _, f := range c.funcsWithLits(pJ) {
@@ -1345,4 +1376,122 @@ func guardedMapAccesses(c *Ctx, rels []string) []mapAccess {
 		}
 	}
 	return out
+}
+
+// pairedByEarlyReturn recognises the second spelling of "decrement exactly when incremented" (see R-C05-2).
+func (c *Ctx) pairedByEarlyReturn(nf *Func, incSite *uifSite, incStmt ast.Node, outN *types.Var) (bool, string) {
+	lit := incSite.Lit
+	lg := lit.Graph()
+	isInc := func(v int) bool { return lg.Node(v) != nil && lg.VertexOf(incStmt) == v }
+	nilLeaf := func(f *Func, cand types.Object, isNil bool) func(ast.Expr) tri {
+		return func(e ast.Expr) tri {
+			if x, trueWhenNil, ok := NilTest(e); ok && f.ObjOf(x) == cand {
+				if trueWhenNil == isNil {
+					return triTrue
+				}
+				return triFalse
+			}
+			return triUnknown
+		}
+	}
+	// candidates: error variables of the enclosing function that the closure assigns
+	var cands []types.Object
+	for _, w := range Writes(lit.Body, false) {
+		o := lit.ObjOf(w.LHS)
+		v, ok := o.(*types.Var)
+		if !ok || v.IsField() || (lit.Lit.Pos() <= v.Pos() && v.Pos() < lit.Lit.End()) {
+			continue
+		}
+		if types.TypeString(v.Type(), nil) != "error" {
+			continue
+		}
+		dup := false
+		for _, c0 := range cands {
+			if c0 == o {
+				dup = true
+			}
+		}
+		if !dup {
+			cands = append(cands, o)
+		}
+	}
+	if len(cands) == 0 {
+		return false, "(the closure sets no error variable of the enclosing function)"
+	}
+	g := nf.Graph()
+	callV := g.VertexOf(incSite.Call)
+	// the unconditional deferred decrement
+	deferV := -1
+	for _, v := range g.Vertices(func(n ast.Node) bool { _, ok := n.(*ast.DeferStmt); return ok }) {
+		dl := nf.LitOfDefer(g.Node(v).(*ast.DeferStmt))
+		if dl == nil {
+			continue
+		}
+		for _, s := range c.uifSites(dl) {
+			for _, w := range s.Lit.FieldWrites(s.Lit.Body, outN, false) {
+				id, ok := w.(*ast.IncDecStmt)
+				if !ok || id.Tok != token.DEC {
+					continue
+				}
+				dg, sg := dl.Graph(), s.Lit.Graph()
+				always1, _ := dg.MustPassIncl(dg.Entry, dg.Exits, func(u int) bool { return u == dg.VertexOf(s.Call) })
+				always2, _ := sg.MustPassIncl(sg.Entry, sg.Exits, func(u int) bool { return u == sg.VertexOf(w) })
+				if always1 && always2 {
+					deferV = v
+				}
+			}
+		}
+	}
+	if deferV < 0 {
+		return false, "(no deferred closure that always decrements)"
+	}
+	for _, cand := range cands {
+		// 1. with the error nil, the closure always increments
+		avoid := lg.ReachUnder(nilLeaf(lit, cand, true), isInc)
+		ok1 := true
+		for _, x := range lg.Exits {
+			if avoid[x] && !isInc(x) {
+				ok1 = false
+			}
+		}
+		// ... and with the error set it never does
+		if lg.ReachUnder(nilLeaf(lit, cand, false), nil)[lg.VertexOf(incStmt)] {
+			// the increment may still be reachable syntactically when the error is assigned after it; require that no
+			// assignment of the error follows the increment
+			for _, w := range Writes(lit.Body, false) {
+				if lit.ObjOf(w.LHS) == cand && lg.ReachableFrom(lg.VertexOf(incStmt))[lg.VertexOf(w.Stmt)] {
+					ok1 = false
+				}
+			}
+			// (the error is nil when the closure starts: its tests before the first assignment are unknown, not false)
+		}
+		if !ok1 {
+			continue
+		}
+		// 2. in the function: error nil after the closure => every way out passes the defer; error set => the defer is not reached
+		after := g.ReachableFrom(callV)
+		avoidD := g.ReachUnder(nilLeaf(nf, cand, true), func(v int) bool { return v == deferV })
+		ok2 := g.Dominates(callV, deferV)
+		for _, x := range g.Exits {
+			if avoidD[x] && after[x] && x != deferV {
+				ok2 = false
+			}
+		}
+		if g.ReachUnder(nilLeaf(nf, cand, false), nil)[deferV] {
+			ok2 = false
+		}
+		// nothing that can fail or block stands between the closure and the defer
+		for v := 0; v < g.N; v++ {
+			if g.Node(v) == nil || v == callV || v == deferV || !after[v] || !g.ReachableFrom(v)[deferV] || g.ReachableFrom(deferV)[v] {
+				continue
+			}
+			if len(nf.AllCalls(g.Node(v), false)) > 0 {
+				ok2 = false
+			}
+		}
+		if ok2 {
+			return true, ""
+		}
+	}
+	return false, "(no captured error separates the incrementing outcome from the refusing one on every path)"
 }
